@@ -516,10 +516,12 @@ pub fn run(rep: &mut Report) {
         rep.agg.merge(agg);
     }
 
-    // ---- leg A3: every window size 5..=64 (and 128, 255, 256) on 24 kB inputs, low and high filter bits
+    // ---- leg A3: every window size 5..=64 (and 128, 255, 256, 1024, 4200, 6000, 16384) on 24 kB inputs, low and high filter bits
     {
         let mut ws: Vec<usize> = (5..=64).collect();
         ws.extend([128, 255, 256]);
+        // windows large enough for the 32-bit sums of RollSum to wrap around (w^2 * 128 > 2^32 from w ~ 5800; with 0xff runs from ~ 4100)
+        ws.extend([1024, 4200, 6000, 16384]);
         let mut x: u32 = 4242;
         let mut rnd = move || {
             x ^= x << 13;
@@ -528,7 +530,11 @@ pub fn run(rep: &mut Report) {
             (x >> 8) as u8
         };
         let n = 24_000;
-        let inputs: Vec<Vec<u8>> = vec![(0..n).map(|_| rnd()).collect(), (0..n).map(|i| if (i / 700) % 3 == 0 { 0xff } else { rnd() }).collect()];
+        let inputs: Vec<Vec<u8>> = vec![
+            (0..n).map(|_| rnd()).collect(),
+            (0..n).map(|i| if (i / 700) % 3 == 0 { 0xff } else { rnd() }).collect(),
+            (0..n).map(|i| if i < 9000 { 0xff } else if (i / 1500) % 4 == 0 { 0 } else { rnd() }).collect(),
+        ];
         let (ws_ref, inputs_ref) = (&ws, &inputs);
         let c = par_shards(ws.len(), threads, |wi| {
             let w = ws_ref[wi];
